@@ -2,6 +2,7 @@ package gen
 
 import (
 	"fmt"
+	"math"
 	"math/rand"
 
 	"github.com/ulikunitz/lz"
@@ -209,6 +210,13 @@ func SmallCfg(r *rand.Rand, typ string, o Opts) Cfg {
 		}
 		if r.Intn(4) == 0 {
 			c.Cost = "XZCost"
+		}
+		switch r.Intn(40) {
+		case 0: // "no limit"
+			c.MaxMatchLen = []int{math.MaxInt64, 1 << 31, 1<<32 + 5, 1<<32 + 16, 1<<31 - 1}[r.Intn(5)]
+		case 1: // a minimum nothing can reach: only literals may be emitted
+			c.MinMatchLen = []int{1<<32 + 2, 1<<32 + 3, 1<<33 + 4, 1 << 31}[r.Intn(4)]
+			c.MaxMatchLen = []int{c.MinMatchLen, math.MaxInt64}[r.Intn(2)]
 		}
 	}
 	return c
